@@ -17,6 +17,7 @@ Nothing here raises on a crashing input; CxxError is for harness-level failures 
 (generation failure, compile failure, driver that cannot start)."""
 from __future__ import annotations
 
+import collections
 import concurrent.futures
 import hashlib
 import json
@@ -155,6 +156,46 @@ typeid typename union unsigned using virtual void volatile wchar_t while xor xor
 int8_t int16_t int32_t int64_t uint8_t uint16_t uint32_t uint64_t size_t""".split())
 
 
+def emission_order(file):
+    """declaration ids in the order the analyzer hands them to the backends (depth-first
+    post-order over group / typedef / static-array / fixed-enum references and parents, as
+    in analyzer.rs check_decl_identifiers; dynamic arrays are deliberately not followed)"""
+    dm = A.decl_map(file)
+    out = []
+    mark = set()
+
+    def visit(d):
+        if d["id"] in mark:
+            return
+        mark.add(d["id"])
+        for fl in d.get("fields", ()):
+            k = fl["kind"]
+            t = None
+            if k == "group_field":
+                t = dm.get(fl["group_id"])
+                if t is not None and t["kind"] != "group_declaration":
+                    t = None
+            elif k == "typedef_field" or (k == "array_field" and fl.get("type_id") is not None
+                                          and fl.get("size") is not None):
+                t = dm.get(fl["type_id"])
+                if t is not None and t["kind"] in ("packet_declaration", "group_declaration"):
+                    t = None
+            elif k == "fixed_field" and "enum_id" in fl:
+                t = dm.get(fl["enum_id"])
+                if t is not None and t["kind"] != "enum_declaration":
+                    t = None
+            if t is not None:
+                visit(t)
+        if d.get("parent_id") is not None and d["parent_id"] in dm:
+            visit(dm[d["parent_id"]])
+        out.append(d["id"])
+
+    for d in file["declarations"]:
+        if "id" in d:
+            visit(d)
+    return out
+
+
 def uncompilable_declarations(file):
     """{declaration id: reason}: declarations for which the C++ backend (as read from
     backends/cxx.rs and confirmed by probing) panics or emits code that does not compile,
@@ -168,6 +209,7 @@ def uncompilable_declarations(file):
     m = Model(file)
     dm = m.dm
     bad = {}
+    order = {id: n for n, id in enumerate(emission_order(file))}
 
     def first_tag_not_value(enum_id):
         tags = dm[enum_id]["tags"]
@@ -201,8 +243,6 @@ def uncompilable_declarations(file):
                     why.append("field `%s` is a C++ keyword / reserved type name" % fid)
                 if fid in flags and fid in ("span", "parent", "output", "raw_value", "n"):
                     why.append("flag `%s` collides with a local of the generated parser" % fid)
-                if k == "packet_declaration" and fid in ("valid", "bytes"):
-                    why.append("field `%s` collides with view member %s_" % (fid, fid))
             if fk == "typedef_field" and fl.get("cond") is None and fl["type_id"] in dm and \
                     dm[fl["type_id"]]["kind"] == "enum_declaration":
                 if closed(fl["type_id"]):
@@ -241,15 +281,45 @@ def uncompilable_declarations(file):
                     pass
         if n_closed >= 2:
             why.append("%d closed-enum fields in one declaration: `auto raw_value` redefined" % n_closed)
-        has_payload = any(A.get_payload(x) is not None for x in m.chain(d)) if d["id"] in dm else False
-        if "payload" in ids and has_payload:
-            why.append("field `payload` collides with the payload member")
-        for fl in fields:
-            if fl["kind"] in ("size_field", "count_field", "elementsize_field"):
-                suffix = {"size_field": "_size", "count_field": "_count", "elementsize_field": "_element_size"}[fl["kind"]]
-                base = "payload" if fl["field_id"] in ("_payload_", "_body_") else fl["field_id"]
-                if base + suffix in ids:
-                    why.append("field `%s` collides with the generated member %s_" % (base + suffix, base + suffix))
+        # member names of the generated view / builder / struct class must be distinct
+        members = collections.Counter()
+        if k == "packet_declaration":
+            members.update(["valid_", "bytes_"])
+            chain = m.chain(d)
+            cons = set()
+            for x in chain:
+                cons.update(c["id"] for c in x.get("constraints", ()))
+        else:
+            chain = [d]
+            cons = set()
+        for x in chain:
+            xflags = {fl["cond"]["id"] for fl in x["fields"] if fl.get("cond") is not None}
+            for fl in x["fields"]:
+                fk = fl["kind"]
+                if fk in ("payload_field", "body_field"):
+                    if x is d:
+                        members["payload_"] += 1
+                elif fk in ("scalar_field", "typedef_field", "array_field"):
+                    if fl["id"] in cons or (fk == "scalar_field" and fl["id"] in xflags):
+                        continue
+                    members[fl["id"] + "_"] += 1
+                elif fk in ("size_field", "count_field", "elementsize_field"):
+                    suffix = {"size_field": "_size_", "count_field": "_count_",
+                              "elementsize_field": "_element_size_"}[fk]
+                    base = "payload" if fl["field_id"] in ("_payload_", "_body_") and fk != "count_field" \
+                        else fl["field_id"]
+                    members[base + suffix] += 1
+        dups = sorted(n for n, c in members.items() if c > 1)
+        if dups:
+            why.append("duplicate generated member(s) %s" % ", ".join(dups))
+        # array element types must be declared before use; the analyzer's declaration sort does
+        # not follow dynamic arrays
+        for x in chain:
+            for fl in x["fields"]:
+                if fl["kind"] == "array_field" and fl.get("type_id") is not None and fl.get("size") is None:
+                    if order.get(fl["type_id"], -1) > order.get(d["id"], 1 << 30):
+                        why.append("array element type %s is declared after its use (declaration sort "
+                                   "ignores dynamic arrays)" % fl["type_id"])
         if why:
             bad[d["id"]] = "; ".join(why)
     # propagate through parents and struct-typed fields
